@@ -173,13 +173,7 @@ def check_case(levels: Tuple[Tuple[str, ...], ...], future_state: str, mode: str
             violate('save-raised', repr(exc), exc=type(exc).__name__, future=future_state if 'f' in declared else '-')
             return violations
         snapshot = copy.deepcopy(canon(saved))
-        # members that were never declared must not be in the saved state
-        leaked = sorted(k for k in saved if k in ('z',) or (k in MEMBERS and k not in declared))
-        if leaked:
-            violate('undeclared-member-saved', leaked)
-        missing = sorted(k for k in declared if k not in saved)
-        if missing:
-            violate('declared-member-not-saved', missing, member=missing[0])
+        # (how a saved state is laid out is not laid down: what was saved is judged through what a load restores)
         # copied at save time: mutate the original afterwards
         obj.a[1].append('later')
         obj.a[2]['t'].append('later')
@@ -189,7 +183,7 @@ def check_case(levels: Tuple[Tuple[str, ...], ...], future_state: str, mode: str
         obj.s.v[1]['d'] = 'later'
         if canon(saved) != snapshot:
             diff = sorted(k for k in snapshot if canon(saved).get(k) != snapshot[k])
-            violate('saved-state-aliases-original', diff, member=diff[0] if diff else '?')
+            violate('saved-state-aliases-original', diff, member=diff[0] if diff and diff[0] in MEMBERS else '?')
         load_ctx = persistence.LoadSaveContext(loader=custom) if mode == 'per-save-custom+context' else None
         try:
             loaded = persistence.Savable.load(copy.deepcopy(saved) if False else saved, load_ctx)
@@ -235,22 +229,39 @@ def check_case(levels: Tuple[Tuple[str, ...], ...], future_state: str, mode: str
             if hasattr(loaded, name):
                 violate('undeclared-member-restored', name)
         try:
-            again = loaded.save(save_ctx)
-            if canon(again) != snapshot:
-                diff = sorted(k for k in snapshot if canon(again).get(k) != snapshot[k])
-                violate('second-save-differs', diff, member=diff[0] if diff else '?')
+            loaded.save(save_ctx)  # (that a second save gives the identical state is C07's sentence)
         except BaseException as exc:  # noqa: BLE001
             violate('second-save-raised', repr(exc), exc=type(exc).__name__)
         # the parents of the chain are unaffected by what the children declared
         for i, parent in enumerate(classes[:-1]):
             want = set().union(*[set(l) for l in levels[:i + 1]])
-            pstate = parent(future_state).save()
-            got_members = {k for k in pstate if k in MEMBERS}
+            restored = persistence.Savable.load(parent(future_state).save())
+            got_members = {k for k in MEMBERS if hasattr(restored, k)}
             if got_members != want:
                 violate('parent-class-declarations-changed', {'level': i, 'got': sorted(got_members), 'want': sorted(want)})
     finally:
         loaders.set_object_loader(previous)
     return violations
+
+
+def replace_string(state: Any, old: str, new: str) -> bool:
+    """Replace every string value equal to ``old`` anywhere in the (nested) saved state; says whether there was one."""
+    found = False
+    if isinstance(state, dict):
+        for key, value in list(state.items()):
+            if value == old and isinstance(value, str):
+                state[key] = new
+                found = True
+            elif isinstance(value, (dict, list)):
+                found = replace_string(value, old, new) or found
+    elif isinstance(state, list):
+        for i, value in enumerate(state):
+            if value == old and isinstance(value, str):
+                state[i] = new
+                found = True
+            elif isinstance(value, (dict, list)):
+                found = replace_string(value, old, new) or found
+    return found
 
 
 def check_unknown() -> List[dict]:
@@ -260,13 +271,14 @@ def check_unknown() -> List[dict]:
     for what in ('class', 'loader'):
         state = copy.deepcopy(saved)
         if what == 'class':
-            state[persistence.META][persistence.META__CLASS_NAME] = f'{__name__}:NoSuchClass'
+            known = loaders.get_object_loader().identify_object(classes[-1])
+            if not replace_string(state, known, f'{__name__}:NoSuchClass'):
+                continue  # (the identifier is not kept as a plain string: nothing to doctor)
         else:
             state = classes[-1]().save(persistence.LoadSaveContext(loader=CountingLoader()))
-            meta = state[persistence.META]
-            for holder in (meta, meta.get(persistence.META__USER, {})):
-                if persistence.META__OBJECT_LOADER in holder:
-                    holder[persistence.META__OBJECT_LOADER] = f'{__name__}:NoSuchLoader'
+            known = loaders.DefaultObjectLoader().identify_object(CountingLoader)
+            if not replace_string(state, known, f'{__name__}:NoSuchLoader'):
+                continue
         try:
             obj = persistence.Savable.load(state)
             out.append({'clause': 'unknown-identifier-accepted', 'features': {'what': what}, 'detail': repr(obj),
@@ -341,8 +353,9 @@ def check_declaration_styles() -> List[dict]:
     """What a class persists is what it and its bases declared, whichever way and in whichever order the classes are used."""
     out: List[dict] = []
     want = {'parent': {'a'}, 'child': {'a', 'b'}, 'sibling': {'a'}}
-    for parent_style in ('decorator', 'classmethod', 'hook'):
-        for child_style in ('decorator', 'classmethod', 'hook'):
+    styles = ('decorator', 'classmethod', 'hook') if hasattr(persistence.Savable, 'persist') else ('decorator', 'classmethod')
+    for parent_style in styles:  # (the persist() hook is a way of declaring only as long as the library has it)
+        for child_style in styles:
             for order in itertools.permutations(('parent', 'child', 'sibling')):
                 parent, child, sibling = make_styled_pair(parent_style, child_style)
                 classes = {'parent': parent, 'child': child, 'sibling': sibling}
@@ -356,7 +369,8 @@ def check_declaration_styles() -> List[dict]:
                             out.append({'clause': 'declaration:save-raised', 'features': dict(feats, exc=type(exc).__name__),
                                         'detail': repr(exc), 'case': case})
                             continue
-                        got = {k for k in saved if k in ('a', 'b')}  # (whatever else a saved state may carry)
+                        restored = persistence.Savable.load(saved)
+                        got = {k for k in ('a', 'b') if hasattr(restored, k)}  # (judged through what a load restores)
                         if got != want[who]:
                             out.append({'clause': 'declaration:members-differ', 'features': feats,
                                         'detail': {'got': sorted(got), 'want': sorted(want[who]), 'round': round_}, 'case': case})
